@@ -544,7 +544,7 @@ def arity_rules(facts, rep):
         rep.ob("C09.A", "%s|summary" % short, True,
                "%d constant dependency-index site(s), %d (variant, site) pairs reachable and within arity" % (len(sites), nchecked), b.loc())
         total += nchecked
-    rep.floor("C09.A", "(variant, dependency index) pairs checked", total, 150)
+    rep.floor("C09.A", "(variant, dependency index) pairs checked", total, 100)
     # the arity is checked before dispatch in process_node
     p = facts.body(DISPATCHERS[0])
     if p is not None:
